@@ -23,10 +23,11 @@ type Sorts struct {
 	stSeen   map[string]string // struct type key -> sort name
 	tagOf    map[string]int    // dynamic type key -> interface tag
 	tagNames []string
+	tagTypes map[string]types.Type
 }
 
 func newSorts() *Sorts {
-	s := &Sorts{seen: map[string]bool{}, stSeen: map[string]string{}, tagOf: map[string]int{}}
+	s := &Sorts{seen: map[string]bool{}, stSeen: map[string]string{}, tagOf: map[string]int{}, tagTypes: map[string]types.Type{}}
 	s.decls = append(s.decls,
 		"(declare-datatypes ((Iface 0)) (((mkIface (itag Int) (iid Int)))))",
 		"(declare-datatypes ((Slice 0)) (((mkSlice (sarr Int) (slen Int)))))",
@@ -305,6 +306,7 @@ func (s *Sorts) tag(t types.Type) int {
 	n := len(s.tagOf) + 1
 	s.tagOf[k] = n
 	s.tagNames = append(s.tagNames, k)
+	s.tagTypes[k] = t
 	return n
 }
 
